@@ -432,6 +432,59 @@ def r6(ctx):
     ctx.floor(rule, n, "C17.R6.decoders")
 
 
+def r7(ctx):
+    rule = "C17.R7"
+    ctx.rule(rule, "the oracle of the property recurses: ProtobufEq for Option<T> compares two present values with T's protobuf_eq "
+                   "(not with ==), a present and an absent one through T::default(), and ProtobufEq for Vec<T> compares elements "
+                   "with protobuf_eq - otherwise proto3 default equivalence stops at the first wrapper and a round trip that only "
+                   "turns an empty list inside a present message into an absent one is reported as a change (or the reverse)")
+    P = ctx.program()
+    found = {}
+    for b in P.lib_bodies("asn1rs"):
+        if b.name == "protobuf_eq" and b.def_kind == "AssocFn" and "peq" in b.path:
+            ist = (b.impl_self_ty or "")
+            if ist.startswith("std::option::Option<"):
+                found["Option"] = b
+            elif ist.startswith("std::vec::Vec<"):
+                found["Vec"] = b
+    for k in ("Option", "Vec"):
+        if k not in found:
+            ctx.fail(rule, "anchor-lost:ProtobufEq for " + k, "impl not found")
+    if "Option" in found:
+        b = found["Option"]
+        O = X.Origins(b, P)
+        arms = {}
+        for a in R.match_tables(P, b, O):
+            if len(a.path) == 2:
+                calls = []
+                for bb in sorted(a.blocks):
+                    t = b.blocks[bb]["term"]
+                    if t and t["k"] == "call" and t["func"].get("fn"):
+                        calls.append("%s::%s" % ((t["func"]["fn"].get("trait") or "").split("::")[-1], t["func"]["fn"]["name"]))
+                arms[(a.path[0][1], a.path[1][1])] = sorted(set(calls))
+        want = {("Some", "Some"): ["ProtobufEq::protobuf_eq"], ("Some", "None"): ["Default::default", "PartialEq::eq"],
+                ("None", "Some"): ["Default::default", "PartialEq::eq"], ("None", "None"): []}
+        for key, w in sorted(want.items()):
+            got = arms.get(key)
+            detail = {"self": key[0], "other": key[1], "calls": got, "expected": w}
+            if got is None:
+                ctx.fail(rule, "Option#%s/%s" % key, "no arm for (%s, %s)" % key, "%s:%d" % (b.file, b.line), detail)
+            elif [c for c in got if c.split("::")[0] in ("ProtobufEq", "PartialEq", "Default")] != w:
+                ctx.fail(rule, "Option#%s/%s" % key, "ProtobufEq for Option compares (%s, %s) with %s instead of %s" % (key[0], key[1], got, w),
+                         "%s:%d" % (b.file, b.line), detail)
+            else:
+                ctx.ok(rule, "Option#%s/%s" % key, detail)
+    if "Vec" in found:
+        b = found["Vec"]
+        calls = sorted({"%s::%s" % ((cs.trait or "").split("::")[-1], cs.name) for cs in b.calls()})
+        detail = {"calls": calls}
+        if "ProtobufEq::protobuf_eq" not in calls or "PartialEq::eq" in calls or "PartialEq::ne" in calls:
+            ctx.fail(rule, "Vec#elements", "ProtobufEq for Vec does not compare its elements with protobuf_eq (calls: %s)" % calls,
+                     "%s:%d" % (b.file, b.line), detail)
+        else:
+            ctx.ok(rule, "Vec#elements", detail)
+
+
 def run(ctx):
     r1(ctx)
     r2(ctx)
@@ -439,3 +492,4 @@ def run(ctx):
     r4(ctx)
     r5(ctx)
     r6(ctx)
+    r7(ctx)
